@@ -499,7 +499,7 @@ def run(chk):
         'hand-written model Alg/LossDiscrete.v of the pmf-dict branches of discrete_loss / discrete_second_loss (exact correspondence on generated dyadic pmfs); the generic distribution-object branches are modelled as sums of a cdf over range(x)',
         'Section hypotheses (not axioms) of C09_standard_normal_loss_monotone: cdf\' = pdf, pdf\' = -z pdf, 0 <= cdf <= 1',
         'Python oracles: scipy.integrate.quad on pdf-weighted integrands, direct summation of pmfs']
-    chk.assume += ['closed form = defining integral/series is proved only for the uniform distribution and the pmf-dict forms; for the other families it is checked numerically (1e-7) -- statements kept as C09_*_statement',
+    chk.assume += ['closed form = defining integral/series is proved for the uniform, normal, exponential, Poisson and geometric families and the pmf-dict forms (not for lognormal, gamma, negative binomial); for the other families it is checked numerically (1e-7)',
                    'discrete families are checked for integer arguments x >= 0 and x = -2; discrete_loss(distrib=...) documents F(x) = 0 for x < 0',
                    'heavy right tails (pareto-like, lognormal with sigma > 1.2): continuous_loss / continuous_second_loss stop at the 1 - 1e-10 quantile, so n and n2 miss the tail mass beyond it '
                    '(a finite number where the variance is infinite); only the complementary values, finiteness, sign and monotonicity are checked there']
